@@ -716,15 +716,7 @@ Theorem parse_show_min_all e :
 Proof. intros W. apply rendering_parses; [apply show_R; lia|exact W]. Qed.
 
 
-(* ---- op_t::print (fully parenthesised) parses back, on the fragment without ?: ---- *)
-Fixpoint tern_free (e : aexpr) : Prop :=
-  match e with
-  | ATern _ _ _ => False
-  | ANeg a | ANot a => tern_free a
-  | ABin _ a b => tern_free a /\ tern_free b
-  | _ => True
-  end.
-
+(* ---- op_t::print (fully parenthesised) parses back ---- *)
 (* literals carry their sign: no - or ! directly in front of something that is a literal *)
 Fixpoint normal (e : aexpr) : Prop :=
   match e with
@@ -746,6 +738,11 @@ Lemma print_bop o l r :
   print (OBin (fst (bop_kind o)) l (Some r)) = TLParen :: print l ++ [bop_tok o] ++ print r ++ [TRParen].
 Proof. destruct o; intros H; try discriminate H; reflexivity. Qed.
 
+Lemma print_query c a b :
+  print (OBin KQuery c (Some (OBin KColon a (Some b)))) =
+  TLParen :: (print c ++ TQuery :: print a ++ TColon :: print b) ++ [TRParen].
+Proof. unfold print. cbn [pp fst snd bin_tok app]. rewrite <- !app_assoc. cbn [app]. rewrite <- !app_assoc. reflexivity. Qed.
+
 Lemma neg_node_nonvalue t : is_value t = false -> neg_node t = OUn KNeg t.
 Proof. destruct t; cbn; intros H; try reflexivity; discriminate H. Qed.
 Lemma not_node_nonvalue t : is_value t = false -> not_node t = OUn KNot t.
@@ -764,23 +761,23 @@ Proof.
   apply R_bin; [apply bop_tok_op| |]; (eapply R_le; [|reflexivity|eassumption]); lia.
 Qed.
 
-Lemma print_renders : forall e, wfv e -> normal e -> tern_free e ->
+Lemma print_renders : forall e, wfv e -> normal e ->
   exists e', wfv e' /\ tree e' = tree e /\ R 7 e' (print (tree e)).
 Proof.
-  induction e as [v|s|a IH|a IH|o a IHa b IHb|c IHc a IHa b IHb]; intros W N T.
+  induction e as [v|s|a IH|a IH|o a IHa b IHb|c IHc a IHa b IHb]; intros W N.
   - exists (AVal v). cbn [tree]. rewrite (print_value _ W). repeat split; [exact W|apply R_val].
   - exists (AId s). repeat split. apply R_id.
-  - cbn [wfv normal tern_free] in *. destruct N as [Nv N].
-    destruct (IH W N T) as (a' & Wa & Ea & Ra).
+  - cbn [wfv normal] in *. destruct N as [Nv N].
+    destruct (IH W N) as (a' & Wa & Ea & Ra).
     exists (ANeg a'). cbn [tree wfv]. rewrite Ea, (neg_node_nonvalue _ Nv), print_un_neg.
     repeat split; [exact Wa|]. apply (R_paren_at _ (TMinus :: print (tree a)) 6); [lia|]. apply R_neg. exact Ra.
-  - cbn [wfv normal tern_free] in *. destruct N as [Nv N].
-    destruct (IH W N T) as (a' & Wa & Ea & Ra).
+  - cbn [wfv normal] in *. destruct N as [Nv N].
+    destruct (IH W N) as (a' & Wa & Ea & Ra).
     exists (ANot a'). cbn [tree wfv]. rewrite Ea, (not_node_nonvalue _ Nv), print_un_not.
     repeat split; [exact Wa|]. apply (R_paren_at _ (TExclam :: print (tree a)) 6); [lia|]. apply R_not. exact Ra.
-  - cbn [wfv normal tern_free] in *. destruct W as [W1 W2], N as [N1 N2], T as [T1 T2].
-    destruct (IHa W1 N1 T1) as (a' & Wa & Ea & Ra).
-    destruct (IHb W2 N2 T2) as (b' & Wb & Eb & Rb).
+  - cbn [wfv normal] in *. destruct W as [W1 W2], N as [N1 N2].
+    destruct (IHa W1 N1) as (a' & Wa & Ea & Ra).
+    destruct (IHb W2 N2) as (b' & Wb & Eb & Rb).
     destruct (snd (bop_kind o)) eqn:Neg.
     + (* a != b is ! (a == b) *)
       assert (o = BNe) by (destruct o; cbn in Neg; try discriminate Neg; reflexivity). subst o.
@@ -793,14 +790,21 @@ Proof.
     + exists (ABin o a' b'). cbn [tree wfv]. rewrite Ea, Eb. unfold mk_bin. rewrite Neg.
       repeat split; [exact Wa|exact Wb|].
       rewrite (print_bop _ _ _ Neg). apply R_paren_bin; assumption.
-  - contradiction T.
+  - cbn [wfv normal] in *. destruct W as (W0 & W1 & W2), N as (N0 & N1 & N2).
+    destruct (IHc W0 N0) as (c' & Wc & Ec & Rc).
+    destruct (IHa W1 N1) as (a' & Wa & Ea & Ra).
+    destruct (IHb W2 N2) as (b' & Wb & Eb & Rb).
+    exists (ATern c' a' b'). cbn [tree wfv]. rewrite Ec, Ea, Eb.
+    repeat split; [exact Wc|exact Wa|exact Wb|].
+    rewrite print_query. apply (R_paren_at _ _ 0); [lia|].
+    apply R_tern; (eapply R_le; [|reflexivity|eassumption]); lia.
 Qed.
 
 Theorem print_parse_roundtrip e :
-  wfv e -> normal e -> tern_free e ->
+  wfv e -> normal e ->
   exists n0, forall n, (n0 <= n)%nat -> parse cp n (print (tree e)) = Ok (Some (tree e)).
 Proof.
-  intros W N T. destruct (print_renders e W N T) as (e' & W' & E & HR).
+  intros W N. destruct (print_renders e W N) as (e' & W' & E & HR).
   rewrite <- E. apply rendering_parses; [|exact W'].
   apply (R_le _ _ 7); [lia|lia|]. rewrite E. exact HR.
 Qed.
